@@ -38,7 +38,8 @@ theorem find_loc (pairs : List (Nat × Nat)) (k : Nat) (a : Nat) (ha : a ∈ pai
         · exact h
       have hne : (k + 1 == List.idxOf a (ps.map Prod.fst) + 1 + k + 1) = false := by
         simp only [beq_eq_false_iff_ne]; omega
-      simp only [hx, beq_iff_eq, cond_false, hne, Bool.false_eq_true]
+      have hx' : (x1 == a) = false := by simp [hx]
+      simp only [hx', cond_false, hne]
       have := ih (k + 1) ha'
       rw [show List.idxOf a (ps.map Prod.fst) + 1 + k + 1 = List.idxOf a (ps.map Prod.fst) + (k + 1) + 1 by omega]
       exact this
